@@ -21,14 +21,13 @@ func (e *executionContext) AppendLog(ctx context.Context, log *ledger.Log) (*led
 		return log.ChainLog(nil), ret, nil
 	}
 
-	chainedLog := e.commander.chainLog(log)
+	done := make(chan struct{})
+	chainedLog := e.commander.chainLog(log, func() {
+		close(done)
+	})
 	logging.FromContext(ctx).WithFields(map[string]any{
 		"id": chainedLog.ID,
 	}).Debugf("Appending log")
-	done := make(chan struct{})
-	e.commander.Append(chainedLog, func() {
-		close(done)
-	})
 	return chainedLog, done, nil
 }
 
